@@ -234,6 +234,7 @@ type runState struct {
 	// all-GET/HEAD fan-out shares the maps between the sibling shadows, C03's subject)
 	scribble        bool
 	orderNotImposed bool
+	cfgModified     bool
 }
 
 type tagErr struct{ tag string }
@@ -554,6 +555,8 @@ type instance struct {
 	p        proxy.Proxy
 	newErr   string
 	panicked string
+	// New changed the configuration value it was given (Backend slice or a backend)
+	cfgModified bool
 }
 
 const stateKey ctxKey = "c16-state-key"
@@ -660,15 +663,37 @@ func mkRequest(q reqSpec) *proxy.Request {
 	return r
 }
 
-func build(spec *caseSpec, shadowed bool) *instance {
-	inst := &instance{cfgSpec: spec, shadowed: shadowed}
+func selFor(spec *caseSpec, shadowed bool) []int {
 	var sel []int
 	for i, b := range spec.bes {
 		if shadowed || !b.ns.shadow() {
 			sel = append(sel, i)
 		}
 	}
-	cfg := buildCfg(spec, sel)
+	return sel
+}
+
+func build(spec *caseSpec, shadowed bool) *instance {
+	return buildFrom(spec, shadowed, buildCfg(spec, selFor(spec, shadowed)))
+}
+
+// deep snapshot of what the caller of New owns: the Backend slice (length, order, which
+// backend sits where) and every backend's fields the factories read
+func snapCfg(cfg *config.EndpointConfig) string {
+	var b strings.Builder
+	fmt.Fprintf(&b, "%s %s %v n=%d;", cfg.Endpoint, cfg.Method, cfg.Timeout, len(cfg.Backend))
+	for _, be := range cfg.Backend {
+		ec, _ := json.Marshal(be.ExtraConfig)
+		fmt.Fprintf(&b, "%p %s %s %v %v %s;", be, be.URLPattern, be.Method, be.Timeout, be.Host, ec)
+	}
+	return b.String()
+}
+
+// build from a configuration value the caller keeps (and may build from again)
+func buildFrom(spec *caseSpec, shadowed bool, cfg *config.EndpointConfig) *instance {
+	inst := &instance{cfgSpec: spec, shadowed: shadowed}
+	before := snapCfg(cfg)
+	defer func() { inst.cfgModified = snapCfg(cfg) != before }()
 	var f proxy.Factory = inst.factory()
 	if shadowed {
 		f = proxy.NewShadowFactory(f)
@@ -696,6 +721,7 @@ func (inst *instance) call(spec *caseSpec, sequential bool) (res runResult) {
 	inst.mu.Lock()
 	st.calls = append([][]int{}, inst.calls...)
 	inst.mu.Unlock()
+	st.cfgModified = inst.cfgModified
 	res.newErr, res.panicked = inst.newErr, inst.panicked
 	for _, b := range spec.bes {
 		if shadowed && b.ns.shadow() {
@@ -1096,7 +1122,9 @@ func emitCase(spec *caseSpec, plain, shadowed runResult) emitted {
 			keys = append(keys, "graphql:"+b.gql)
 		}
 	}
-	wd := plain.st.watchdog || shadowed.st.watchdog
+	// harness-level alarms (no clock involved): a watchdog fired, or New modified the caller's
+	// configuration value
+	wd := plain.st.watchdog || shadowed.st.watchdog || plain.st.cfgModified || shadowed.st.cfgModified
 	q := spec.req
 	// identical sub-terms are bound once (the term denotes the same value)
 	scT, srT := sc, sr
@@ -1116,7 +1144,7 @@ func emitCase(spec *caseSpec, plain, shadowed runResult) emitted {
 	}
 	js := map[string]interface{}{"level": "call", "label": spec.label, "backends": besJS, "endpoint_timeout": spec.ep.String(), "timing": modeNames[spec.mode],
 		"request": reqJ, "full_copy_expected": spec.fullcopy,
-		"observed": map[string]interface{}{"factory_calls": shadowed.st.calls, "watchdog_fired": wd, "order_not_imposed": shadowed.st.orderNotImposed,
+		"observed": map[string]interface{}{"factory_calls": shadowed.st.calls, "watchdog_fired": plain.st.watchdog || shadowed.st.watchdog, "caller_config_modified_by_New": plain.st.cfgModified || shadowed.st.cfgModified, "order_not_imposed": shadowed.st.orderNotImposed,
 			"plain_result": pj, "with_shadows_result": sj, "regular_backends_plain_run": prj, "regular_backends_with_shadows": srj, "shadow_backends": ssj}}
 	keys = append(keys, "level:call", "timing:"+modeNames[spec.mode])
 	if spec.seq != "" {
@@ -1191,6 +1219,7 @@ func runInChild(cfg out.Config, j int, jb job) []emitted {
 type job struct {
 	steps             []*caseSpec
 	goroutines, iters int // > 0: concurrent reuse
+	rebuild           bool // the steps are successive builds from ONE configuration value
 }
 
 func (j job) run() []emitted {
@@ -1199,6 +1228,18 @@ func (j job) run() []emitted {
 	}
 	if len(j.steps) == 1 && j.steps[0].seq == "" {
 		return []emitted{evalCase(j.steps[0])}
+	}
+	if j.rebuild {
+		// New is called again and again on the SAME *config.EndpointConfig (an endpoint
+		// registered twice, a stack rebuilt): every build must be the first one
+		st0 := j.steps[0]
+		pcfg, scfg := buildCfg(st0, selFor(st0, false)), buildCfg(st0, selFor(st0, true))
+		var res []emitted
+		for _, st := range j.steps {
+			pi, si := buildFrom(st, false, pcfg), buildFrom(st, true, scfg)
+			res = append(res, emitCase(st, pi.call(st, true), si.call(st, true)))
+		}
+		return res
 	}
 	// ONE plain and ONE shadow-factory instance for the whole sequence
 	pi, si := build(j.steps[0], false), build(j.steps[0], true)
@@ -1327,6 +1368,18 @@ func main() {
 		}
 		jobs = append(jobs, job{steps: steps, goroutines: goroutines, iters: iters})
 	}
+	// builds successive proxies from one configuration value; every build serves one request
+	addRebuild := func(name string, proto *caseSpec, builds int) {
+		var steps []*caseSpec
+		for k := 0; k < builds; k++ {
+			c := *proto
+			c.bes = append([]beSpec{}, proto.bes...)
+			c.seq, c.step, c.label = name, k, "rebuild"
+			sanitize(&c)
+			steps = append(steps, &c)
+		}
+		jobs = append(jobs, job{steps: steps, rebuild: true})
+	}
 	// a sequence / a set of distinct inputs for one configuration: per step the outcomes of
 	// the regular and of the shadow backends (in configuration order), timing, request
 	type variation struct {
@@ -1424,6 +1477,12 @@ func main() {
 			{[]int{rIncomplete}, []int{sGarbage, sErr}, mRegularFirst, stepReq(3, nil)},
 			{[]int{rPayload}, []int{sHang, sHang}, mShadowFirst, stepReq(4, bA)}}))
 	}
+
+	// New called three times on the same configuration value: shadow listed before the regular
+	// backend, before two of them, between them
+	addRebuild("corpus-rebuild-S-R", &caseSpec{bes: []beSpec{shd("POST", "1h", sOk), reg("POST", rPayload)}, ep: time.Hour, req: defaultReq(bodies[3]), mode: mShadowFirst, fullcopy: true}, 3)
+	addRebuild("corpus-rebuild-S-R-R", &caseSpec{bes: []beSpec{shd("GET", "1h", sErr), reg("POST", rPayload), reg("GET", rIncomplete)}, ep: time.Hour, req: defaultReq(bodies[2]), mode: mRegularFirst, fullcopy: true}, 3)
+	addRebuild("corpus-rebuild-R-S-R", &caseSpec{bes: []beSpec{reg("GET", rPayload), shd("POST", "2h", sGarbage), reg("POST", rPayload)}, ep: time.Hour, req: defaultReq(bodies[3]), mode: mShadowFirst, fullcopy: true}, 3)
 
 	// ---- 2. every shape of the extra_config entry, next to one regular backend ----
 	var shapes []nsCfg
@@ -1713,6 +1772,31 @@ func main() {
 		}
 	}
 
+	// ---- 5b. rebuild: every split of 2..4 backends (shadow before, after, between regular
+	// ones), New called 3 times on the same configuration value ----
+	for n := 2; n <= 4; n++ {
+		for mask := 1; mask < (1<<n)-1; mask++ {
+			bes := make([]beSpec, n)
+			var shIdx, regIdx []int
+			for i := 0; i < n; i++ {
+				if mask&(1<<i) != 0 {
+					bes[i] = shd([]string{"POST", "GET", "PUT"}[r.Intn(3)], []string{"1h", "2h", ""}[r.Intn(3)], r.Intn(3))
+					bes[i].timeout = time.Hour
+					shIdx = append(shIdx, i)
+				} else {
+					bes[i] = reg([]string{"POST", "GET", "PUT"}[r.Intn(3)], r.Intn(5))
+					regIdx = append(regIdx, i)
+				}
+			}
+			for _, grp := range [][]int{regIdx, shIdx} {
+				if len(grp) >= 2 {
+					bes[grp[r.Intn(len(grp))]].method = "POST"
+				}
+			}
+			addRebuild(fmt.Sprintf("rebuild-n%d-m%d", n, mask), &caseSpec{bes: bes, ep: time.Hour, req: defaultReq(bodies[1+r.Intn(4)]), mode: r.Intn(3), fullcopy: true}, 3)
+		}
+	}
+
 	// ---- 6. instance reuse, concurrent (last: the number of cases it yields is data dependent
 	// only when requests of one instance interfere) ----
 	{
@@ -1816,5 +1900,5 @@ func main() {
 			w.Add(e.term, e.js, "", e.canon, e.nontr)
 		}
 	}
-	w.Close("corpus (GraphQL GET/POST shadow or regular next to plain backends, the shapes of shadow_test.go, empty request, degenerate configurations); every shape of the proxy extra_config entry (namespace absent / not a map / shadow flag absent, not a bool, true, false x shadow_timeout absent, not a string, 10 strings) next to regular backends; every split of 2..4 backends into >=1 regular and >=1 shadow x every shadow outcome vector {ok,error,garbage,hang}^s x 3 imposed timings (quick: 4 backends sampled 1/3), regular outcomes as in C01 and bodies drawn per case; random stream (random requests, methods, timeouts, GraphQL stages, 85% merge bound below the shadow timeout); instance reuse: ONE plain and ONE NewShadowFactory-built proxy per configuration serving a sequence of 4-6 requests that differ in body, headers, params, regular and shadow outcomes and timing (3 corpus sequences, every split of 2..3 backends x 2 random sequences, with and without hanging shadows), and 3 configurations hit by 12 goroutines x 40 iterations over 10 distinct inputs (each distinct observation emitted once). Each case = one call of the plain factory's endpoint on the regular backends + one call of NewShadowFactory's endpoint. nontrivial = at least one shadow backend", true)
+	w.Close("corpus (GraphQL GET/POST shadow or regular next to plain backends, the shapes of shadow_test.go, empty request, degenerate configurations); every shape of the proxy extra_config entry (namespace absent / not a map / shadow flag absent, not a bool, true, false x shadow_timeout absent, not a string, 10 strings) next to regular backends; every split of 2..4 backends into >=1 regular and >=1 shadow x every shadow outcome vector {ok,error,garbage,hang}^s x 3 imposed timings (quick: 4 backends sampled 1/3), regular outcomes as in C01 and bodies drawn per case; random stream (random requests, methods, timeouts, GraphQL stages, 85% merge bound below the shadow timeout); instance reuse: ONE plain and ONE NewShadowFactory-built proxy per configuration serving a sequence of 4-6 requests that differ in body, headers, params, regular and shadow outcomes and timing (3 corpus sequences, every split of 2..3 backends x 2 random sequences, with and without hanging shadows), and 3 configurations hit by 12 goroutines x 40 iterations over 10 distinct inputs (each distinct observation emitted once). rebuild stream: every split of 2..4 backends, NewShadowFactory(f).New called 3 times on the SAME configuration value, each resulting proxy driven, deep snapshot of the caller's configuration compared after every New. Each case = one call of the plain factory's endpoint on the regular backends + one call of NewShadowFactory's endpoint. nontrivial = at least one shadow backend", true)
 }
